@@ -1457,10 +1457,18 @@ class Interp:
             old_st = st.ghost['__old__']
             s0 = old_st.fork()
             s0.frames = [dict(f) for f in st.frames]
+            n_old = len(s0.pc)
             outs = list(self.ev(node.args[0], s0))
-            if len(outs) != 1 or isinstance(outs[0][1], Raise):
-                raise EngineLimit('old(...) must be a simple, total expression')
-            yield st, C.snapshot_value(self, outs[0][0], st, outs[0][1])
+            if any(isinstance(o[1], Raise) for o in outs):
+                raise EngineLimit('old(...) must be a total expression')
+            if len(outs) == 1:
+                yield st, C.snapshot_value(self, outs[0][0], st, outs[0][1])
+                return
+            for s_old, v in outs:
+                st_i = st.fork()
+                st_i.pc += s_old.pc[n_old:]
+                if self.feasible(st_i.pc):
+                    yield st_i, C.snapshot_value(self, s_old, st_i, v)
             return
         for st1, f in self.ev(node.func, st):
             if isinstance(f, Raise):
